@@ -1,9 +1,8 @@
 SPECIFICATION Spec
 CONSTANTS
-  MaxLen <- TMaxLen
-  Alphabets <- MCAlphabets
-  Extra = 2
-  RepMax = 16
+  Sizes = {9, 17, 34, 70, 130, 260}
+  BigSizes = {520, 1030}
+  ModelUpTo = 40
   Export = TRUE
 INVARIANT Inv
 CHECK_DEADLOCK FALSE
